@@ -2279,6 +2279,21 @@ def fold_reflective_calls(fn: ast.FunctionDef) -> int:
                 n[0] += 1
             return c
 
+        def visit_List(self, d):
+            self.generic_visit(d)
+            if any(isinstance(a, ast.Starred) and isinstance(a.value, (ast.List, ast.Tuple)) and not any(isinstance(e, ast.Starred) for e in a.value.elts)
+                   for a in d.elts):
+                new = []
+                for a in d.elts:
+                    if isinstance(a, ast.Starred) and isinstance(a.value, (ast.List, ast.Tuple)) and not any(isinstance(e, ast.Starred) for e in a.value.elts):
+                        new.extend(a.value.elts)                      # [a, *[x, y]] is [a, x, y]
+                    else:
+                        new.append(a)
+                d.elts = new
+                n[0] += 1
+            return d
+        visit_Tuple = visit_List
+
         def visit_ListComp(self, lc):
             self.generic_visit(lc)
             if len(lc.generators) != 1 or lc.generators[0].ifs or lc.generators[0].is_async or not isinstance(lc.generators[0].target, ast.Name):
